@@ -745,7 +745,167 @@ func pqConcurrent(seed int64, cfg pqengine.Config, nEvents int) []string {
 	return fails
 }
 
+// pqHandover: the consumer ends a read transaction and begins the next one while a flush of the producer is
+// waiting for it (the commit holds the pending lock, blocked by the reader). The new read transaction may only
+// start after that commit: it sees everything that was flushed, and every page the new queue header links.
+func pqHandover(seed int64, cfg pqengine.Config, rounds int) []string {
+	var fails []string
+	fail := func(f string, a ...interface{}) { fails = append(fails, fmt.Sprintf(f, a...)) }
+	d := simdisk.New("pqh")
+	f, err := txfile.VerifOpen(d, txfile.Options{PageSize: cfg.PageSize, MaxSize: cfg.MaxSize})
+	if err != nil {
+		return []string{"open failed"}
+	}
+	del, err := pq.NewStandaloneDelegate(f)
+	if err != nil {
+		return []string{"delegate failed"}
+	}
+	q, err := pq.New(del, pq.Settings{WriteBuffer: cfg.WriteBuffer})
+	if err != nil {
+		return []string{"queue failed"}
+	}
+	w, err := q.Writer()
+	if err != nil {
+		return []string{"writer failed"}
+	}
+	rs := rand.New(rand.NewSource(seed))
+	rd := q.Reader()
+	total, consumed := 0, 0
+	readAll := func(round int) bool {
+		for {
+			sz, err := rd.Next()
+			if err != nil {
+				fail("round %d: Reader.Next after %d of %d events: %v", round, consumed, total, err)
+				return false
+			}
+			if sz == 0 {
+				return true
+			}
+			buf := make([]byte, sz)
+			got := 0
+			for got < sz {
+				k, err := rd.Read(buf[got:])
+				if err != nil {
+					fail("round %d: Read of event #%d: %v", round, consumed, err)
+					return false
+				}
+				if k == 0 {
+					break
+				}
+				got += k
+			}
+			if got != sz || !bytes.Equal(buf, pqengine.Content(consumed, 9, sz)) {
+				fail("round %d: event #%d differs from what was written", round, consumed)
+				return false
+			}
+			consumed++
+		}
+	}
+	for round := 0; round < rounds && len(fails) == 0; round++ {
+		if err := rd.Begin(); err != nil {
+			fail("Begin: %v", err)
+			break
+		}
+		// the producer writes events that need new pages and flushes: the commit has to wait for the reader
+		n := 1 + rs.Intn(3)
+		flushErr := make(chan error, 1)
+		go func(first, n int) {
+			for i := 0; i < n; i++ {
+				b := pqengine.Content(first+i, 9, 1+rs.Intn(2*int(cfg.PageSize)))
+				if _, err := w.Write(b); err != nil {
+					flushErr <- err
+					return
+				}
+				if err := w.Next(); err != nil {
+					flushErr <- err
+					return
+				}
+			}
+			flushErr <- w.Flush()
+		}(total, n)
+		pendingSeen := false
+		for t0 := time.Now(); time.Since(t0) < 2*time.Second; {
+			if _, pend, _ := txfile.VerifLockState(f); pend {
+				pendingSeen = true
+				break
+			}
+			time.Sleep(20 * time.Microsecond)
+		}
+		if !pendingSeen {
+			// the commit never got as far as waiting for the reader: no hand-over in this round
+			rd.Done()
+			if err := <-flushErr; err != nil {
+				fail("round %d: producer: %v", round, err)
+			}
+			total += n
+			continue
+		}
+		// hand over: end this read transaction, begin the next one at once
+		rd.Done()
+		if err := rd.Begin(); err != nil {
+			fail("round %d: Begin after Done: %v", round, err)
+			break
+		}
+		select {
+		case err := <-flushErr:
+			if err != nil {
+				fail("round %d: producer: %v", round, err)
+			}
+		case <-time.After(20 * time.Second):
+			s, p, rsv := txfile.VerifLockState(f)
+			fail("round %d: the flush does not finish; lock state (%s)", round, lkString(s, p, rsv))
+			return fails
+		}
+		total += n
+		ok := readAll(round)
+		rd.Done()
+		if !ok {
+			break
+		}
+		if pendingSeen && consumed != total {
+			// the read transaction began after the commit (it had to wait for the pending lock): nothing may be missing
+			// -- unless it was begun before the flush finished; then the rest arrives in the next transaction
+			if err := rd.Begin(); err == nil {
+				readAll(round)
+				rd.Done()
+			}
+			if consumed != total {
+				fail("round %d: %d of %d flushed events delivered", round, consumed, total)
+			}
+		}
+	}
+	if len(fails) == 0 && consumed > 0 {
+		if err := q.ACK(uint(consumed)); err != nil {
+			fail("final ACK(%d): %v", consumed, err)
+		}
+	}
+	q.Close()
+	f.Close()
+	return fails
+}
+
 func runPQStress(rep *Report, r *rand.Rand, n int) {
+	// directed: reader hand-over under a pending commit
+	for i := 0; i < 3+n/20; i++ {
+		seed := r.Int63()
+		cfg := pqConfigs()[i%len(pqConfigs())]
+		cfg.MaxSize = 0 // the file keeps growing: every flush links pages past the previous end of the file
+		cfg.WriteBuffer = 64 * 1024 // one commit per round: only the explicit Flush writes to the file
+		var fails []string
+		if !watchdog(60*time.Second, func() { fails = pqHandover(seed, cfg, 25) }) {
+			fails = []string{"reader hand-over scenario does not finish"}
+		}
+		rep.Evaluations++
+		rep.count("pq-handover-runs", 1)
+		rep.nontrivial(fmt.Sprintf("pqhandover/%s/%d", cfg, seed%97))
+		if len(fails) > 0 {
+			rep.violate(Violation{Kind: "oracle", Sig: "pq-handover/" + failSig(fails[0]),
+				Detail: fmt.Sprintf("consumer ends a read transaction and begins the next while a flush is waiting for it (%s, seed %d): %s", cfg, seed, fails[0]),
+				Replay: map[string]interface{}{"seed": seed, "config": cfg, "scenario": "handover", "failures": fails}})
+			break
+		}
+	}
+
 	hung := 0
 	cfgs := pqConfigs()
 	for i := 0; i < n; i++ {
